@@ -1,4 +1,4 @@
-add("C07", "checks/c07_roundtrip.c", ["default-plain", "default-asan", "dtostre-plain", "c89-plain", "c99-plain", "os-plain", "c89os-plain", "ndebug-plain"], ["default-plain", "default-asan", "dtostre-plain", "dtostre-asan", "c89-plain", "c99-plain", "os-plain", "optall-plain", "c89os-plain", "ndebug-plain", "mcu-plain", "isa-plain", "optnum-plain"],
+add("C07", "checks/c07_roundtrip.c", ["default-plain", "default-asan", "dtostre-plain", "c89-plain", "c99-plain", "os-plain", "c89os-plain", "ndebug-plain"], ["default-plain", "default-asan", "dtostre-plain", "dtostre-asan", "c89-plain", "c99-plain", "os-plain", "c89os-plain", "ndebug-plain"],
     "cases = one value formatted by SCPI_Result*/SCPI_ResultArray*(ASCII) through a query, the captured response data sent back as the "
     "parameter of a command and decoded by the matching SCPI_Param*/SCPI_ParamArray* reader; all 2^8 and 2^16 values x 4 bases, 32-bit "
     "values (thorough: all 2^32 in bases 10 signed/unsigned and 16, 1/16 stratum in bases 8 and 2; quick: 32 values per 2^16 block), "
